@@ -1,5 +1,7 @@
 // C01 — view algebra.  BFS over view states from a set of roots; per-state oracle: shape queries and the address of every
 // valid index tuple via four access paths against the affine reference model.
+#define VM_CALL_MAXARGS 4
+#define VM_CATEGORIES 1
 #include "../engine/view_model.hpp"
 #include "../engine/view_oracle.hpp"
 
@@ -41,7 +43,7 @@ int main(int argc, char** argv) {
 	Config cfg;
 	cfg.maxdepth = static_cast<int>(args.geti("depth", thorough ? 5 : 3));
 	cfg.max_states = args.geti("max_states", 3000000);
-	cfg.menu0.call_full = true; cfg.menu0.call_maxargs = 3;
+	cfg.menu0.call_full = true; cfg.menu0.call_maxargs = 4;
 	cfg.menu.call_full = false; cfg.menu.call_maxargs = 2;
 	cfg.full_call_depth = 1;
 	return vr::main_roots(args, cfg, thorough, [](std::vector<idx> const& sizes, bool owning, Hist const& h) { return vr::replay_generic(sizes, owning, h, [](auto&& v, MView const& m, int const* data, idx N) {
